@@ -389,6 +389,47 @@ def _case_seq(rng, regime):
     return " ".join(toks)
 
 
+def _case_conv(rng):
+    """dyadic source tables whose observation rows carry a tail of entries below the sparse storage threshold
+    (k * 2^-21 < 1e-6 each); the dropped mass per row is either <= 2^-20 (conversion to sparse is legitimate) or
+    >= 2^-18 (the library must refuse: the stored rows would not be distributions)"""
+    S = rng.choice([2, 3, 3, 4])
+    A = rng.choice([1, 2])
+    O = rng.choice([6, 8, 10, 12])
+    den = rng.choice([8, 16])
+    mo = _random_model(rng, S, A, O, den, 0.6)
+    if mo is None:
+        return None
+    T, Ob = mo
+    unit = Fraction(1, 1 << 21)
+    heavy = rng.random() < 0.6
+    for a in range(A):
+        for s1 in range(S):
+            row = Ob[a][s1]
+            zeros = [o for o in range(O) if row[o] == 0]
+            big = max(range(O), key=lambda o: row[o])
+            if heavy and len(zeros) >= 4:
+                k = rng.randint(4, min(len(zeros), 8))
+                per = rng.choice([1, 2]) if k * 2 <= 16 else 1          # each entry 2^-21 or 2^-20 (< 1e-6)
+                tail = rng.sample(zeros, k)
+                if per == 2 and rng.random() < 0.5:
+                    per = 1
+                # dropped mass k*per*2^-21 >= 2^-19 > 1e-6 when k*per >= 4
+            elif not heavy and zeros and rng.random() < 0.7:
+                k, per = rng.choice([(1, 1), (2, 1), (1, 2)])               # dropped mass <= 2^-20 < 1e-6
+                k = min(k, len(zeros))
+                tail = rng.sample(zeros, k)
+            else:
+                continue
+            for o in tail:
+                row[o] = unit * per
+                row[big] -= unit * per
+    if _symmetric(S, A, O, T, Ob):
+        return None
+    beliefs = _beliefs(rng, S, 64, few=True)
+    return _finish(rng, "conv", "dy", S, A, O, [(T, Ob, _rewards(rng, S, A, "dy"))], beliefs)
+
+
 def gen(rng, tier):
     n = {"quick": 320, "thorough": 1500, "search": 600}[tier]
     out = []
@@ -402,6 +443,8 @@ def gen(rng, tier):
             c = _case_hist(rng, "dy" if rng.random() < 0.8 else "gen")
         elif u < 0.46:
             c = _case_seq(rng, "dy" if rng.random() < 0.8 else "gen")
+        elif u < 0.52:
+            c = _case_conv(rng)
         else:
             c = _case(rng, "dy" if rng.random() < 0.8 else "gen")
         if c is not None:
